@@ -36,6 +36,9 @@ func NewPath(raw string) (zero Path, _ error) {
 		}
 
 		if d.IsVariable {
+			if _, ok := p.Parameters.Get(d.V); ok {
+				return zero, fmt.Errorf("path %q: the variable %q is used more than once", raw, d.V)
+			}
 			p.Parameters.Add(d.V, &d)
 		}
 		p.Dirs = append(p.Dirs, &d)
